@@ -1260,6 +1260,12 @@ class Interp:
                 if isinstance(args[0], Sym):
                     return Sym(f"<type of {args[0].name}>")
                 return type(args[0])
+            if short == "vars" and len(args) == 1 and isinstance(args[0], ClassRef):
+                # the class's own namespace: what its body defines (not what it inherits)
+                c_ = args[0].cls
+                return {**{k_: v_ for k_, v_ in c_.class_attrs.items()}, **{k_: defs_[0] for k_, defs_ in c_.methods.items()}}
+            if short == "vars" and len(args) == 1 and isinstance(args[0], Obj):
+                return {k_: v_ for k_, v_ in args[0].attrs.items() if not k_.startswith("__")}
             if short.endswith(("Error", "Exception")):
                 return Raised(short, args)
         if name in ("itertools.zip_longest", "zip_longest"):
